@@ -1,10 +1,12 @@
 /- `drv_c20 scope <dumpfile>`: evaluate the hypotheses of the C20 theorems on a real AST dump.
    One line per function that gets code:
-     fn <name> typed <0|1> stmts <n> in_scope <k>
+     fn <name> typed <0|1> stmts <n> in_scope <k> depth_scope <0|1>
    `typed` = `typedS` (the typing side condition of the full statements) holds for the body;
-   `stmts` = number of statements in the body, `in_scope` = those the `_partial` theorems cover. -/
+   `stmts` = number of statements in the body, `in_scope` = those the `_partial` theorems cover;
+   `depth_scope` = `okN` (the scope of C20_depth_partial / C20_assert) holds for the body. -/
 import ChibiVerif.Model.Codegen
 import ChibiVerif.Lemmas.C20Typing
+import ChibiVerif.Lemmas.C20Depth
 
 namespace ChibiVerif.Driver
 open ChibiVerif ChibiVerif.Lemmas.C20
@@ -24,7 +26,7 @@ def scopeMain (args : List String) : IO UInt32 := do
           | .error e => IO.println s!"fn {Codegen.cstr fn.v.name} env-failure {e}"
           | .ok (env, _) =>
             let (n, k) := countStmts env fn.body
-            IO.println s!"fn {Codegen.cstr fn.v.name} typed {if typedS env fn.body then 1 else 0} stmts {n} in_scope {k}"
+            IO.println s!"fn {Codegen.cstr fn.v.name} typed {if typedS env fn.body then 1 else 0} stmts {n} in_scope {k} depth_scope {if okN fn.body then 1 else 0}"
       return 0
   | _ =>
     IO.eprintln "usage: drv_c20 scope <dumpfile>"
